@@ -62,6 +62,16 @@ func quietTail(t *rapid.T, w *chainsim.World, m *chainsim.Monitor, adv *chainsim
 	}
 	if adv != nil {
 		adv.Enabled = false
+		if adv.Stats["oversized_payload"] > 0 {
+			// the shadow nodes stand on blocks with an oversized payload, which no honest node takes: a peer that keeps
+			// advertising and serving an invalid chain is a fault, and the faults stop here - the Byzantine nodes leave
+			for _, n := range adv.Heads {
+				if n.Up {
+					n.Stop(true, false)
+				}
+			}
+			simkit.Probe("c19_tail_byzantine_nodes_with_invalid_chain_taken_down")
+		}
 	}
 	for _, n := range s.Nodes {
 		n.Skew = 0 // clocks are back in sync: a clock that is most of a slot behind keeps rejecting fresh blocks as future blocks
